@@ -1,5 +1,6 @@
 import TTProofs.Lemmas.C07_Trees
 import TTProofs.Lemmas.C07_LogRate
+import TTProofs.Lemmas.C07_Scaling
 import TTProofs.Lemmas.C07_Tril
 import TTProofs.Props.C06
 /-!
@@ -216,6 +217,37 @@ theorem ratio_reported_eq_true (hT : WF n T) (hn : 2 ≤ n) (s : Nat → ℝ) (x
   have hj' : j < n - 2 := Finset.mem_range.mp hj
   simp only [ratioDiag, if_pos hj']
   rw [abs_of_pos (hpos j hj')]
+
+
+/-- **ratio_logdet_scaling**: the same tree expressed in a time unit `c` times smaller (sampling times and
+root height multiplied by `c > 0`, ratios unchanged) has every Jacobian factor multiplied by `c`: the
+reported log-Jacobian grows by exactly `(n−2)·log c`, on every tree and at every point of the open domain.
+(Oracle of the scale sweep: an epsilon or a floor inside the logarithm breaks this law.) -/
+theorem ratio_logdet_scaling (hT : WF n T) (hn : 2 ≤ n) (s x : Nat → ℝ) {c : ℝ} (hc : 0 < c)
+    (hx : RatioDomOpen n (bounds n s (postorder n T)) x) :
+    ratioLd (ratioDetTerms n (bounds n (fun k => c * s k) (postorder n T)) (detIndices n T)
+        (ratioFwd n (bounds n (fun k => c * s k) (postorder n T)) (forwardIndices n T) (scaleRoot n c x)))
+      = ratioLd (ratioDetTerms n (bounds n s (postorder n T)) (detIndices n T)
+          (ratioFwd n (bounds n s (postorder n T)) (forwardIndices n T) x))
+        + ((n - 2 : Nat) : ℝ) * Real.log c := by
+  apply ratio_logdet_scaling_lemma hT hn s x hc
+  intro j hj
+  have hm := par_mem hT hj
+  have h1 := fwd_bound_mono hT s _ hm
+  have hlt := (fwd_child_lt hT _ hm).2
+  have h2 := (ratio_valid_strict s x hT hn hx).1 (n + par n T j) (by omega) (by omega)
+  simp only [Nat.add_sub_cancel_left] at h2
+  have h1' : bounds n s (T.post n) (n + j) ≤ bounds n s (T.post n) (n + par n T j) := h1
+  have h2' : bounds n s (T.post n) (n + par n T j)
+      < ratioFwd n (bounds n s (T.post n)) (forwardIndices n T) x (par n T j) := h2
+  linarith
+
+/-- the same law for `LogTransform`: scaling the input by `c > 0` lowers every reported entry by `log c` -/
+theorem log_reported_scaling (x : Nat → ℝ) (i : Nat) {c : ℝ} (hc : 0 < c) (hx : 0 < x i) :
+    logLd (fun k => c * x k) (logFwd fun k => c * x k) i = logLd x (logFwd x) i - Real.log c := by
+  simp only [logLd, logFwd, TT.trans_log_real]
+  rw [Real.log_mul (ne_of_gt hc) (ne_of_gt hx)]
+  ring
 
 /-- **diff_reported_eq_true**: the difference transform (with `torch.max` or the smooth maximum — any
 `mx`) reports `0`, which is its true `log|det J|` at every point: the Jacobian is lower triangular
